@@ -18,6 +18,7 @@ import (
 // the real Writer and on damaged variants.
 
 func init() {
+	addReplay("C02", "rdobj-extreme", replayFIOLengthExtreme)
 	addRun("C02", "reader side: every kind of indirect object of the written files (plain, reference, stream with direct / patched / indirect length) is read by the real scanner (no decryption) and by the model, also after damaging /Length, the endstream keyword, the EOL after stream and the object header; object streams (real ones, and with damaged N, First, index) are indexed and searched by getObjStm/getFromObjStm and the model. Non-trivial: streams and object streams; distinct by bytes.", runFIORead)
 	setCanon("C02", canonReals)
 }
@@ -254,30 +255,61 @@ func fioObjStmHandmade(c *Ctx, r *Rand, n int) {
 	}
 }
 
-// fioLengthExtremes: declared lengths up to MaxInt64.  start+declared wraps
-// around for the largest ones, the ReadAt at a negative offset fails and (since
-// library commit a2d2dfe) that error is returned instead of the extent being
-// recovered; slightly smaller values read past the end (io.EOF) and recover.
+// fioLengthExtremes: declared lengths up to MaxInt64.  For the largest ones
+// start+declared does not fit into an int64: such a length is a broken length
+// (library commit bfd427f, D45) and the extent is recovered by the search for
+// endstream, as for lengths which merely point past the end of the data.  A
+// read error ("negative offset") instead is a violation.
+func fioLengthExtremeCase(n string, indirect bool) (data []byte, lens map[uint32]int64, ok bool) {
+	lens = map[uint32]int64{}
+	val := n
+	if indirect {
+		v, err := strconv.ParseInt(n, 10, 64)
+		if err != nil {
+			return nil, nil, false
+		}
+		lens[7] = v
+		val = "7 0 R"
+	}
+	return []byte("5 0 obj\n<</Length " + val + ">>\nstream\nabc\nendstream\nendobj\n"), lens, true
+}
+
 func fioLengthExtremes(c *Ctx) {
 	for _, n := range []string{"3", "4", "99", "2147483648", "9223372036854775000", "9223372036854775700",
 		"9223372036854775806", "9223372036854775807", "9223372036854775808", "-1"} {
 		for _, indirect := range []bool{false, true} {
-			lens := map[uint32]int64{}
-			val := n
-			if indirect {
-				v, err := strconv.ParseInt(n, 10, 64)
-				if err != nil {
-					continue
-				}
-				lens[7] = v
-				val = "7 0 R"
+			data, lens, ok := fioLengthExtremeCase(n, indirect)
+			if !ok {
+				continue
 			}
-			data := []byte("5 0 obj\n<</Length " + val + ">>\nstream\nabc\nendstream\nendobj\n")
 			c.Stat("rdobj_length_extremes")
 			c.Case(fmt.Sprintf("rdobj-extreme %s %v", n, indirect), true)
-			c.Emit(fmt.Sprintf("FIO rdobj %s %d %s", hexWire(data), 0, fioLensArg(lens)), fioImplReadObj(data, 0, lens))
+			got := fioImplReadObj(data, 0, lens)
+			if !strings.HasPrefix(got, "ok S ") {
+				c.Violate("rdobj-extreme", "length-overflow-read-error",
+					fmt.Sprintf("a stream with /Length %s (indirect: %v) and the data abc is read as %q; expected: the stream, its extent recovered", n, indirect, got),
+					fmt.Sprintf("%s %v", n, indirect))
+			}
+			c.Emit(fmt.Sprintf("FIO rdobj %s %d %s", hexWire(data), 0, fioLensArg(lens)), got)
 		}
 	}
+}
+
+func replayFIOLengthExtreme(input string) (bool, string) {
+	var n string
+	var indirect bool
+	if _, err := fmt.Sscanf(input, "%s %t", &n, &indirect); err != nil {
+		return true, "bad replay input"
+	}
+	data, lens, ok := fioLengthExtremeCase(n, indirect)
+	if !ok {
+		return true, "bad replay input"
+	}
+	got := fioImplReadObj(data, 0, lens)
+	if !strings.HasPrefix(got, "ok S ") {
+		return false, fmt.Sprintf("ReadIndirectObject on %q: %s", data, got)
+	}
+	return true, got
 }
 
 // fioTopLevelRefs: indirect objects whose value is a reference ("a b R" behind
